@@ -771,7 +771,7 @@ LEVEL_TEXT = ('Proof: on a deep embedding of functional arithmetic (18 node clas
               '(3) the Moreau decomposition prox_{sigma f}(x) + sigma prox_{f*/sigma}(x/sigma) = x whenever both proximals exist '
               '(incl. the sort-based l1-ball projection); (4) f** = f in value wherever both can be evaluated, under an explicit '
               'side condition B (scalar multiples of functionals whose conjugate is flagged linear are validated only). '
-              The model (values, conjugate trees incl. scalar merging and the is_linear '
+              'The model (values, conjugate trees incl. scalar merging and the is_linear '
               'dispatch, proximals, gradients, exception classes) is tied to /repo by an in-Coq correspondence on random trees '
               '(class trees of f, f*, f** and all values compared). KL pairs, GroupL1, NuclearNorm, general-p norms, '
               'matrix QuadraticForm, element-valued sigma are probed only.')
